@@ -491,6 +491,35 @@ class FunTerm:
             r2 = self.branch(orelse, ncond) if orelse else None
             if r2 is None:
                 r2 = self.block(rest)
+            # what the names (attributes) hold when the function is left depends on the path taken: an early `return` leaves
+            # them as they were at that point (a raising path leaves nothing to look at)
+            RAISE_ = tm.atom_poly(("raise",))
+            env2 = self.env
+            if r1 == RAISE_:
+                pass
+            elif r2 == RAISE_:
+                self.env = env1
+            else:
+                merged = {}
+                self.env = dict(env0)
+                tr_ = self.translator()
+                self.env = env2
+                for nm in set(env1) | set(env2):
+                    v1, v2 = env1.get(nm), env2.get(nm)
+                    if "." in nm and nm not in env0 and (v1 is None) != (v2 is None):
+                        # an attribute one path never touched still holds what it held on entry
+                        try:
+                            held = tr_.tr(ast.parse(nm, mode="eval").body)
+                        except Exception:
+                            held = None
+                        v1, v2 = (held if v1 is None else v1), (held if v2 is None else v2)
+                    if v1 is None or v2 is None:
+                        merged[nm] = v1 if v1 is not None else v2
+                    elif v1 == v2:
+                        merged[nm] = v1
+                    else:
+                        merged[nm] = tm.mk_ifexp(cond, v1, v2)
+                self.env = merged
             if r1 is None or r2 is None:
                 return (OPQ("partial return"),)
             if r1 == r2:
